@@ -384,6 +384,11 @@ def main(tier, seed):
             for i in range(0, len(sets), chunk):
                 cases.append({"len": n, "kind": kind, "sets": sets[i:i + chunk],
                               "cli": i == 0})
+    # large files (many read blocks; sizes at which an implementation may switch strategy) with one, two, three and all formats
+    fl = ref.FORMATS_LIB
+    for n in (8 * MB - 1, 8 * MB, 8 * MB + 1) + ((16 * MB + 3, 32 * MB + 1) if tier == "thorough" else ()):
+        cases.append({"len": n, "kind": kinds[0], "cli": True,
+                      "sets": [(list(fl), "asc"), (list(fl[:3]), "asc"), (list(fl[-3:]), "desc"), ([fl[0]], "asc"), ([fl[0], fl[-1]], "asc")]})
     # all byte strings of length <= 2 over {00, 0A, 61, FF}
     small = [b""] + [bytes(t) for r in (1, 2) for t in itertools.product([0x00, 0x0A, 0x61, 0xFF], repeat=r)]
     for d in small:
